@@ -85,7 +85,11 @@ def _is_type(v, t):
     raise ref.HarnessError("schema type %r not supported by the mini validator" % (t,))
 
 
-KNOWN_KEYWORDS = {"$ref", "type", "properties", "required", "items", "anyOf", "enum", "default", "description", "title", "definitions"}
+KNOWN_KEYWORDS = {
+    "$ref", "type", "properties", "required", "items", "anyOf", "enum", "default", "description", "title", "definitions",
+    "pattern", "minLength", "maxLength", "minItems", "maxItems", "minimum", "maximum", "const", "oneOf", "allOf", "not",
+    "additionalProperties", "$schema", "$id", "examples", "$comment",
+}
 
 
 def schema_problem(v, schema, root, path="$"):
@@ -108,6 +112,47 @@ def schema_problem(v, schema, root, path="$"):
     if "anyOf" in schema:
         if not any(schema_problem(v, s, root, path) is None for s in schema["anyOf"]):
             return "%s: %s matches none of anyOf" % (path, short(v, 80))
+    if "oneOf" in schema:
+        if sum(1 for s in schema["oneOf"] if schema_problem(v, s, root, path) is None) != 1:
+            return "%s: %s does not match exactly one of oneOf" % (path, short(v, 80))
+    if "allOf" in schema:
+        for s in schema["allOf"]:
+            p = schema_problem(v, s, root, path)
+            if p:
+                return p
+    if "not" in schema and schema_problem(v, schema["not"], root, path) is None:
+        return "%s: %s matches the schema under 'not'" % (path, short(v, 80))
+    if "const" in schema and jkey(v) != jkey(schema["const"]):
+        return "%s: %s is not the constant %s" % (path, short(v, 60), short(schema["const"], 60))
+    if type(v) is str:
+        import re
+
+        if "pattern" in schema and re.search(schema["pattern"], v) is None:
+            return "%s: %s does not match pattern %r" % (path, ascii(v)[:80], schema["pattern"])
+        if "minLength" in schema and len(v) < schema["minLength"]:
+            return "%s: string shorter than minLength" % path
+        if "maxLength" in schema and len(v) > schema["maxLength"]:
+            return "%s: string longer than maxLength" % path
+    if type(v) in (int, float) and type(v) is not bool:
+        if "minimum" in schema and v < schema["minimum"]:
+            return "%s: %r below minimum" % (path, v)
+        if "maximum" in schema and v > schema["maximum"]:
+            return "%s: %r above maximum" % (path, v)
+    if type(v) is list:
+        if "minItems" in schema and len(v) < schema["minItems"]:
+            return "%s: fewer items than minItems" % path
+        if "maxItems" in schema and len(v) > schema["maxItems"]:
+            return "%s: more items than maxItems" % path
+    if type(v) is dict and "additionalProperties" in schema:
+        extra = [k for k in v if k not in schema.get("properties", {})]
+        ap = schema["additionalProperties"]
+        for k in extra:
+            if ap is False:
+                return "%s: additional property %r not allowed" % (path, k)
+            if isinstance(ap, dict):
+                p = schema_problem(v[k], ap, root, "%s.%s" % (path, k))
+                if p:
+                    return p
     if type(v) is dict:
         for r in schema.get("required", []):
             if r not in v:
@@ -146,7 +191,7 @@ def canon(doc):
 
 
 # --------------------------------------------------------------------- S-CONST positions
-STRINGS = ["", "a", "\xe9", "\U0001F600", "\udc80", "a\ud800b", "\x00", "nan", "int", "frozenset", "string", "\\udc80", "'q'", "\udc80\U0001fae0\U0001fa70", "\ud83d\ude00", "x\ud83d\ude00\ud83d"]
+STRINGS = ["", "a", "\xe9", "\U0001F600", "\udc80", "a\ud800b", "\x00", "nan", "int", "frozenset", "string", "\\udc80", "'q'", "\udc80\U0001fae0\U0001fa70", "\ud83d\ude00", "x\ud83d\ude00\ud83d", "\udc80it's", "\udc80 'both' \"quotes\"", "\udc80\\'"]
 STRING_POSITIONS = ["name", "local", "param", "cell", "free", "co_name", "co_filename", "docstring", "class-name"]
 
 
